@@ -1,5 +1,6 @@
 import UtilModel.Routine.ProofsObs2
 import UtilModel.Routine.ProofsC05
+import UtilModel.Routine.ProofsC14
 /-!
 # routine: observable form of the first sentence of C05 (superseded instances are seen cancelled)
 
@@ -164,44 +165,338 @@ theorem StepMono.of_setInst (s : St) (m : Nat) (x y : Inst) (hx : s.insts[m]? = 
     have := get_lt hx'
     simp [setInst] at this; omega
 
-theorem StepMono.trans {a b c : St} (h1 : StepMono a b) (h2 : StepMono b c) (hlen : a.insts.length ≤ b.insts.length) :
-    StepMono a c := by
-  refine ⟨?_, ?_, fun x h => h2.cr x (h1.cr x h)⟩
-  · intro n x hx
-    obtain ⟨x1, g1, g2, g3, g4⟩ := h1.old n x hx
-    obtain ⟨x2, f1, f2, f3, f4⟩ := h2.old n x1 g1
-    refine ⟨x2, f1, f2.trans g2, fun h => f3 (g3 h), ?_⟩
-    intro hcl
-    rcases f4 hcl with e | e
-    · rcases g4 e with e' | e'
-      · exact Or.inl e'
-      · exact Or.inr (f3 e')
-    · exact Or.inr e
-  · intro n x' hx' hge
-    by_cases hb : b.insts.length ≤ n
-    · exact h2.new n x' hx' hb
-    · have hlt : n < b.insts.length := by omega
-      have hx1 : b.insts[n]? = some b.insts[n] := List.getElem?_eq_getElem hlt
-      obtain ⟨x2, f1, _, _, f4⟩ := h2.old n _ hx1
-      rw [hx'] at f1; cases f1
-      have hnew := h1.new n _ hx1 hge
-      intro hcl
-      rcases f4 hcl with e | e
-      · exact hnew e
-      · -- a fresh instance that is already closed: impossible, it is still waiting
-        exact hnew (by
-          -- `x'.st = closed` came from `b`'s instance being closed
-          rcases f4 hcl with e1 | e1
-          · exact e1
-          · exact absurd rfl (fun _ : True = True => hnew (by
-              rcases f4 hcl with e2 | _
-              · exact e2
-              · exact False.elim (by
-                  -- unreachable branch guard
-                  exact absurd hcl (by intro _; exact hnew (by
-                    rcases f4 hcl with e3 | e3
-                    · exact e3
-                    · sorry)))))
-            |> False.elim)
+/-- every event is monotone for cancellation -/
+theorem step_mono (s s' : St) (e : Ev) (ha : AllRec s) (hs : step s e = some s') : StepMono s s' := by
+  cases e with
+  | cfg c =>
+    simp only [step, stepI] at hs
+    split at hs
+    · simp at hs; subst hs; exact StepMono.frame rfl (fun _ h => h)
+    · cases hs
+  | inv a op =>
+    simp only [step, stepI] at hs
+    split at hs
+    · simp at hs; subst hs; exact StepMono.frame rfl (fun _ h => h)
+    · cases hs
+  | cs a =>
+    simp only [step, stepI] at hs
+    split at hs
+    · rename_i cf c hcf hc
+      split at hs
+      · split at hs
+        · split at hs
+          · rename_i rinr _ _
+            simp at hs; subst hs
+            exact StepMono.frame (by simp [setCall, waitSample]) (by intro c h; simpa [setCall, waitSample] using h)
+          · cases hs
+        · split at hs
+          · cases hs
+          · split at hs
+            · rename_i r hr
+              simp at hs; subst hs
+              have h1 := StepMono.of_cs (csok_apiCS s cf _ r hr).1 (apiCS_shape s cf _ r hr) (apiCS_croots s cf _ r hr)
+              exact ⟨h1.old, h1.new, h1.cr⟩
+            · cases hs
+      · cases hs
+    · cases hs
+  | ret a r =>
+    simp only [step, stepI] at hs
+    split at hs
+    · split at hs
+      · simp at hs; subst hs; exact StepMono.frame rfl (fun _ h => h)
+      · split at hs
+        · simp at hs; subst hs; exact StepMono.frame rfl (fun _ h => h)
+        · cases hs
+    · cases hs
+  | wake a =>
+    simp only [step, stepI] at hs
+    split at hs
+    · split at hs
+      · split at hs
+        · simp at hs; subst hs; exact StepMono.frame rfl (fun _ h => h)
+        · cases hs
+      · cases hs
+    · cases hs
+  | wctx a =>
+    simp only [step, stepI] at hs
+    split at hs
+    · split at hs
+      · split at hs
+        · simp at hs; subst hs; exact StepMono.frame rfl (fun _ h => h)
+        · cases hs
+      · cases hs
+    · cases hs
+  | envCancel c =>
+    simp only [step, stepI] at hs
+    split at hs
+    · simp at hs; subst hs; exact StepMono.frame rfl (fun _ h => h)
+    · cases hs
+  | envDo c =>
+    simp only [step, stepI] at hs
+    split at hs
+    · simp at hs; subst hs
+      exact StepMono.frame rfl (by intro d h; simp only [List.contains_cons, Bool.or_eq_true]; exact Or.inr h)
+    · cases hs
+  | envCancelW a =>
+    simp only [step, stepI] at hs
+    split at hs
+    · split at hs
+      · simp at hs; subst hs; exact StepMono.frame rfl (fun _ h => h)
+      all_goals cases hs
+    · cases hs
+  | giveUp n =>
+    simp only [step, stepI] at hs
+    split at hs
+    · rename_i x hx
+      split at hs
+      · split at hs
+        · simp at hs; subst hs; exact StepMono.of_setInst s n x _ hx rfl id (by simp)
+        · simp at hs; subst hs; exact StepMono.of_setInst s n x _ hx rfl id (by simp)
+      · cases hs
+    · cases hs
+  | drained n =>
+    simp only [step, stepI] at hs
+    split at hs
+    · rename_i x hx
+      split at hs
+      · simp at hs; subst hs; exact StepMono.of_setInst s n x _ hx rfl id (by simp)
+      · cases hs
+    · cases hs
+  | cbin k n f arg root =>
+    simp only [step, stepI] at hs
+    split at hs
+    · rename_i x hx
+      split at hs
+      · split at hs
+        · simp at hs; subst hs
+          have h1 := StepMono.of_setInst s n x { x with st := .running } hx rfl id (by simp)
+          exact ⟨h1.old, h1.new, h1.cr⟩
+        · cases hs
+      · cases hs
+    · cases hs
+  | cbout k o =>
+    simp only [step, stepI] at hs
+    split at hs
+    · rename_i n hn
+      split at hs
+      · rename_i x hx
+        split at hs
+        · simp at hs; subst hs; exact StepMono.of_setInst s n x _ hx rfl id (by simp)
+        · cases hs
+      · cases hs
+    · cases hs
+  | closeExit n =>
+    simp only [step, stepI] at hs
+    split at hs
+    · rename_i x hx
+      split at hs
+      · simp at hs; subst hs; exact StepMono.of_setInst s n x _ hx rfl (fun _ => rfl) (fun _ => Or.inr rfl)
+      · cases hs
+    · cases hs
+  | record n dur =>
+    simp only [step, stepI] at hs
+    split at hs
+    · rename_i cf x _ hx
+      split at hs
+      · rename_i hgd
+        have hk := recordCS_ok s s' cf n x dur hx hgd.1 hs
+        have hlen := recordCS_len s s' cf n x dur hs
+        refine ⟨?_, ?_, by intro c h; rw [recordCS_croots s s' cf n x dur hs]; exact h⟩
+        · intro m z hz
+          obtain ⟨y, hy, hle⟩ := hk.1.1 m z hz
+          exact ⟨y, hy, hle.2.2.1, hle.2.2.2.2.2.2, by intro h; left; rw [← hle.2.2.2.1]; exact h⟩
+        · intro m x' hx' hge; have := get_lt hx'; omega
+      · cases hs
+    · cases hs
+  | emit o =>
+    simp only [step, stepI] at hs
+    split at hs
+    · split at hs
+      · simp at hs; subst hs; exact StepMono.frame rfl (fun _ h => h)
+      · cases hs
+    · cases hs
+  | fire t =>
+    simp only [step, stepI] at hs
+    split at hs
+    · split at hs
+      · simp at hs; subst hs; exact StepMono.frame rfl (fun _ h => h)
+      · cases hs
+    · cases hs
+  | timerCS t =>
+    simp only [step, stepI] at hs
+    split at hs
+    · rename_i tm htm
+      split at hs
+      · simp at hs; subst hs
+        have hb : CSOK s { s with timers := s.timers.set t { tm with st := .dead } } := CSOK.of_eq rfl rfl
+        exact StepMono.of_cs (hb.trans (csok_timerBody _ t tm.rid)).1
+          ((timerBody_shape { s with timers := s.timers.set t { tm with st := .dead } } t tm.rid).of_base rfl rfl)
+          (by simp)
+      · cases hs
+    · cases hs
+  | probeCtx k b =>
+    simp only [step, stepI] at hs
+    split at hs
+    · split at hs
+      · simp at hs; subst hs; exact StepMono.frame rfl (fun _ h => h)
+      · cases hs
+    · cases hs
+  | probeW a b =>
+    simp only [step, stepI] at hs
+    split at hs
+    · split at hs
+      · split at hs
+        · simp at hs; subst hs; exact StepMono.frame rfl (fun _ h => h)
+        · cases hs
+      · cases hs
+    · cases hs
+  | quiesce p r l =>
+    simp only [step] at hs
+    split at hs
+    · simp at hs; subst hs; exact StepMono.frame rfl (fun _ h => h)
+    · cases hs
+
+/-- an instance that has exited has a cancelled context (`execute` calls `cancel()` before `close(exitedCh)`) -/
+def I1 (s : St) : Prop := ∀ (n : Nat) (x : Inst), s.insts[n]? = some x → x.st = .closed → x.cancelled = true
+
+theorem i1_step {s s' : St} (h : I1 s) (hm : StepMono s s') : I1 s' := by
+  intro n x' hx' hcl
+  by_cases hlt : n < s.insts.length
+  · have hx : s.insts[n]? = some s.insts[n] := List.getElem?_eq_getElem hlt
+    obtain ⟨y, hy, _, g3, g4⟩ := hm.old n _ hx
+    rw [hx'] at hy; cases hy
+    rcases g4 hcl with e | e
+    · exact g3 (h n _ hx e)
+    · exact e
+  · exact absurd hcl (hm.new n x' hx' (by omega))
+
+theorem i1_run (s s' : St) (es : List Ev) (h : I1 s) (ha : AllRec s) (hr : model.run s es = some s') : I1 s' := by
+  induction es generalizing s with
+  | nil => simp [OLTS.run] at hr; subst hr; exact h
+  | cons e es ih =>
+    simp only [OLTS.run] at hr
+    cases hst : model.step s e with
+    | none => simp [hst] at hr
+    | some s1 =>
+      simp [hst] at hr
+      exact ih s1 (i1_step h (step_mono s s1 e ha hst)) (step_ok s s1 e ha hst).1 hr
+
+theorem ctxErr_mono {s s' : St} (hm : StepMono s s') (n : Nat) (hlt : n < s.insts.length)
+    (h : ctxErrOf s n = true) : ctxErrOf s' n = true := by
+  have hx : s.insts[n]? = some s.insts[n] := List.getElem?_eq_getElem hlt
+  obtain ⟨y, hy, g2, g3, _⟩ := hm.old n _ hx
+  simp only [ctxErrOf, hx, St.isCancelled, Bool.or_eq_true] at h
+  simp only [ctxErrOf, hy, St.isCancelled, Bool.or_eq_true]
+  rcases h with e | e
+  · exact Or.inl (g3 e)
+  · right; rw [g2]; exact hm.cr _ e
+
+/-! ## a superseding critical section leaves no old instance current -/
+
+/-- the current instance after the critical section, if any, was created by it -/
+def CurNew (s s' : St) : Prop := ∀ n, curInst s' = some n → s.insts.length ≤ n
+
+theorem curInst_stopRec {s : St} {r : Nat} {x : Rec} (hr : s.routine = some r) (hx : s.recs[r]? = some x) :
+    curInst (stopRec s r) = none := by
+  have hr' : (stopRec s r).routine = some r := by simp [hr]
+  have hx' : (stopRec s r).recs[r]? = some x.stopped := by simp [stopRec_recs_get, hx]
+  rw [(curInst_of hr' hx').1]; rfl
+
+theorem curInst_startRec (S : St) (r c : Nat) (w : Option Nat) (force : Bool) (hr : S.routine = some r) :
+    curInst (startRec S r c w force) = curInst S ∨ curInst (startRec S r c w force) = some S.insts.length := by
+  rcases startRec_cases S r c w force with e | ⟨x, hx, h1, h2, _, h4⟩
+  · left; rw [e]
+  · right
+    have hr' : (startRec S r c w force).routine = some r := by rw [h2]; exact hr
+    have := h4 r
+    simp only [if_true] at this
+    rw [(curInst_of hr' this).1]
+
+theorem curNew_setContextCS (s : St) (c : Nat) (restart : Bool) :
+    (setContextCS s c restart).2 = false ∨ CurNew s (setContextCS s c restart).1 := by
+  simp only [setContextCS]
+  split
+  · exact Or.inl rfl
+  · split
+    · exact Or.inl rfl
+    · rename_i r hr
+      split
+      · exact Or.inl rfl
+      · rename_i rr hx
+        split
+        · exact Or.inl rfl
+        · split
+          · exact Or.inl rfl
+          · right
+            have hn : curInst (stopRec { s with ctx := c } r) = none := curInst_stopRec (by simp [hr]) (by simpa using hx)
+            intro n hcur
+            split at hcur
+            · have hcur' : curInst (startRec (stopRec { s with ctx := c } r) r c rr.exitedCh false) = some n := hcur
+              rcases curInst_startRec (stopRec { s with ctx := c } r) r c rr.exitedCh false (by simp [hr]) with e | e
+              · rw [e, hn] at hcur'; cases hcur'
+              · rw [e] at hcur'; cases hcur'; simp
+            · have hcur' : curInst (stopRec { s with ctx := c } r) = some n := hcur
+              rw [hn] at hcur'; cases hcur'
+
+theorem curNew_restartCS (s : St) : (restartCS s).2 = false ∨ CurNew s (restartCS s).1 := by
+  simp only [restartCS]
+  split
+  · exact Or.inl rfl
+  · rename_i r hr
+    split
+    · exact Or.inl rfl
+    · rename_i x hx
+      split
+      · exact Or.inl rfl
+      · right
+        intro n hcur
+        generalize hS : ({ (cancelOpt (normCtx s) x.cancelOf) with
+            recs := ((cancelOpt (normCtx s) x.cancelOf).recs.set r { x with cancelOf := none }).set r
+              { x with cancelOf := none, exitedCh := none } } : St) = S at hcur
+        have hSr : S.routine = some r := by rw [← hS]; simpa using hr
+        have hSl : S.insts.length = s.insts.length := by rw [← hS]; simp
+        have hlt : r < (cancelOpt (normCtx s) x.cancelOf).recs.length := by simpa using get_lt hx
+        have hSx : S.recs[r]? = some { x with cancelOf := none, exitedCh := none } := by
+          rw [← hS]; simp [hlt]
+        have hcur' : curInst (startRec S r S.ctx x.exitedCh true) = some n := by
+          rw [← hS] at hcur ⊢; exact hcur
+        obtain ⟨_, _, _, h4⟩ := startRec_spawn S r S.ctx x.exitedCh true _ hSx (by simp)
+        have hr' : (startRec S r S.ctx x.exitedCh true).routine = some r := by
+          rcases startRec_cases S r S.ctx x.exitedCh true with e | ⟨_, _, _, e, _⟩
+          · rw [e]; exact hSr
+          · rw [e]; exact hSr
+        have := h4 r
+        simp only [if_true] at this
+        rw [(curInst_of hr' this).1] at hcur'
+        cases hcur'; omega
+
+theorem curNew_setRoutineLocked (s : St) (f arg : Nat) : CurNew s (setRoutineLocked s f arg).1 := by
+  have hdn := (curInst_none (detachPrev_routine (normCtx s))).1
+  have hlen : (detachPrev (normCtx s)).1.insts.length = s.insts.length := by simp
+  simp only [setRoutineLocked]
+  intro n hcur
+  split at hcur
+  · split at hcur
+    · generalize hS : ({ (detachPrev (normCtx s)).1 with
+          recs := (detachPrev (normCtx s)).1.recs ++ [{ fn := f, arg := arg }],
+          routine := some (detachPrev (normCtx s)).1.recs.length } : St) = S at hcur
+      have hSr : S.routine = some (detachPrev (normCtx s)).1.recs.length := by rw [← hS]
+      have hSc : curInst S = none := by rw [← hS]; simp [curInst, curRec]
+      have hSl : S.insts.length = s.insts.length := by rw [← hS]; exact hlen
+      have hcur' : curInst (startRec S (detachPrev (normCtx s)).1.recs.length S.ctx (detachPrev (normCtx s)).2.1 false) = some n := by
+        rw [← hS] at hcur ⊢; exact hcur
+      rcases curInst_startRec S _ S.ctx (detachPrev (normCtx s)).2.1 false hSr with e | e
+      · rw [e, hSc] at hcur'; cases hcur'
+      · rw [e] at hcur'; cases hcur'; omega
+    · have : curInst ({ (detachPrev (normCtx s)).1 with
+          recs := (detachPrev (normCtx s)).1.recs ++ [{ fn := f, arg := arg, exitedCh := (detachPrev (normCtx s)).2.1 }],
+          routine := some (detachPrev (normCtx s)).1.recs.length } : St).bcastNow = none := by
+        simp [curInst, curRec]
+      rw [this] at hcur; cases hcur
+  · have e1 : curInst ({ (detachPrev (normCtx s)).1 with cleared := (detachPrev (normCtx s)).2.1 } : St) = none := hdn
+    split at hcur
+    · have : curInst ({ (detachPrev (normCtx s)).1 with cleared := (detachPrev (normCtx s)).2.1 } : St).bcastNow = none := e1
+      rw [this] at hcur; cases hcur
+    · rw [e1] at hcur; cases hcur
 
 end UtilModel.Routine
